@@ -272,25 +272,49 @@ Proof.
   rewrite Hdc in Hd. exact Hd.
 Qed.
 
+(* digits followed by white space cannot be found either when the white-space-free word is
+   followed by something that is neither a digit nor white space (the separating colon) *)
+Lemma digits_stop_fail cont cs : forall u rest p,
+  no_space u = true ->
+  match rest with [] => True | x :: _ => is_digit x = false /\ is_space x = false end ->
+  star_g (CRange 48 57) p (u ++ rest) cs (fun y => m (Cls CSpace) y cont) = None.
+Proof.
+  induction u as [|c u IH]; intros rest p Hu Hr.
+  - cbn [app]. destruct rest as [|x rest]; [reflexivity|]. destruct Hr as [Hd Hs]. cbn [star_g].
+    change (cmatch (CRange 48 57) x) with (is_digit x). rewrite Hd. apply cls_fail. exact Hs.
+  - cbn [no_space forallb] in Hu. apply andb_true_iff in Hu as [Hc Hu].
+    apply negb_true_iff in Hc.
+    assert (H0 : m (Cls CSpace) (mkst p (c :: u ++ rest) cs) cont = None).
+    { apply cls_fail. exact Hc. }
+    cbn [app star_g]. destruct (cmatch (CRange 48 57) c) eqn:Hdc; [|exact H0].
+    rewrite IH; [exact H0|exact Hu|exact Hr].
+Qed.
+
 Lemma unit_plain_run u W D p cs cont r :
-  no_space u = true -> is_nil u || negb (all_digit u) = true ->
+  no_space u = true -> (is_nil u || negb (all_digit u) = true \/ W = []) ->
   head_space W -> overrun_safe W D cont ->
   cont (mkst (rev u ++ p) (W ++ 58 :: D) ((1%nat, u) :: cs)) = Some r ->
   m unit_lit (mkst p (u ++ W ++ 58 :: D) cs) cont = Some r.
 Proof.
   intros Hu Hnd HW Hov Hk. unfold unit_lit. mstep. rewrite m_opt. apply opt_none.
   - (* the optional digits-blank group cannot start here *)
-    mstep. destruct u as [|c u].
-    + cbn [app]. destruct W as [|w0 W]; cbn [app]; rewrite m_plus_cons.
+    mstep. destruct Hnd as [Hnd|HWnil].
+    + destruct u as [|c u].
+      * cbn [app]. destruct W as [|w0 W]; cbn [app]; rewrite m_plus_cons.
+        -- reflexivity.
+        -- cbn in HW. change (cmatch (CRange 48 57) w0) with (is_digit w0).
+           rewrite (space_not_digit w0 HW). reflexivity.
+      * cbn [is_nil orb] in Hnd. apply negb_true_iff in Hnd.
+        cbn [app]. rewrite m_plus_cons. destruct (cmatch (CRange 48 57) c) eqn:Hdc; [|reflexivity].
+        cbn [no_space forallb] in Hu. apply andb_true_iff in Hu as [Hc Hu].
+        apply digits_space_fail; [exact Hu|].
+        cbn [all_digit forallb] in Hnd. change (cmatch (CRange 48 57) c) with (is_digit c) in Hdc.
+        rewrite Hdc in Hnd. exact Hnd.
+    + subst W. cbn [app]. destruct u as [|c u]; cbn [app]; rewrite m_plus_cons.
       * reflexivity.
-      * cbn in HW. change (cmatch (CRange 48 57) w0) with (is_digit w0).
-        rewrite (space_not_digit w0 HW). reflexivity.
-    + cbn [is_nil orb] in Hnd. apply negb_true_iff in Hnd.
-      cbn [app]. rewrite m_plus_cons. destruct (cmatch (CRange 48 57) c) eqn:Hdc; [|reflexivity].
-      cbn [no_space forallb] in Hu. apply andb_true_iff in Hu as [Hc Hu].
-      apply digits_space_fail; [exact Hu|].
-      cbn [all_digit forallb] in Hnd. change (cmatch (CRange 48 57) c) with (is_digit c) in Hdc.
-      rewrite Hdc in Hnd. exact Hnd.
+      * destruct (cmatch (CRange 48 57) c) eqn:Hdc; [|reflexivity].
+        cbn [no_space forallb] in Hu. apply andb_true_iff in Hu as [Hc Hu].
+        apply digits_stop_fail; [exact Hu|]. split; reflexivity.
   - mstep. apply nonspace_run; [exact Hu|exact HW| |].
     + intros E. destruct (Hov E) as [HD Hf]. split; [exact HD|].
       intros p' b cs' Hb. apply Hf. exact Hb.
@@ -546,13 +570,19 @@ Qed.
 Lemma no_dd_re_search s : contains [46; 46] s = false -> re_search dd_lit s = false.
 Proof. intros H. unfold re_search. rewrite (no_dd_search s [] H). reflexivity. Qed.
 
+Lemma no_double_dot_plain line : no_double_dot line = true -> curves_plain line = true.
+Proof.
+  unfold no_double_dot, curves_plain. intros H. apply negb_true_iff in H.
+  change rx_double_dot_search with dd_lit. rewrite (no_dd_re_search line H). reflexivity.
+Qed.
+
 (* ---------- pattern selection -------------------------------------------------------- *)
 
 (* a line with a colon and a period before the first colon, no ".." trigger in ~Curves:
    the ordinary pattern, preceded by the time pattern in ~Parameter *)
 Lemma cp_period line ic ip :
   in_str 58 line = true -> in_str 46 (before 58 line) = true ->
-  (ic = true -> re_search dd_lit line = false) ->
+  (ic = true -> curves_plain line = true) ->
   configure_patterns line ic ip = if ip then [time_lit; main_lit] else [main_lit].
 Proof.
   intros Hc Hd Hdd. unfold configure_patterns. cbv zeta.
@@ -560,16 +590,20 @@ Proof.
     with (before 58 line).
   change (in_str ch_colon line) with (in_str 58 line). change (in_str ch_dot (before 58 line)) with (in_str 46 (before 58 line)).
   rewrite Hc, Hd. cbn [andb negb].
-  change rx_double_dot_search with dd_lit.
   destruct ic.
-  - rewrite (Hdd eq_refl). cbn [andb]. reflexivity.
+  - specialize (Hdd eq_refl). unfold curves_plain in Hdd. apply negb_true_iff in Hdd.
+    rewrite andb_true_r.
+    change (find [ch_dot; ch_dot] line) with (find [46; 46] line).
+    change (rfind_char ch_colon line) with (rfind_char 58 line).
+    destruct (re_search rx_double_dot_search line); [|reflexivity].
+    cbn [andb] in Hdd. rewrite Hdd. reflexivity.
   - rewrite andb_false_r. reflexivity.
 Qed.
 
 (* a line whose text before the first colon has no period: NAME : VALUE in every section *)
 Lemma cp_missing_period line ic ip :
   in_str 58 line = true -> in_str 46 (before 58 line) = false ->
-  (ic = true -> re_search dd_lit line = false) ->
+  (ic = true -> curves_plain line = true) ->
   configure_patterns line ic ip = if ip then [mp_lit; mp_lit] else [mp_lit].
 Proof.
   intros Hc Hd Hdd. unfold configure_patterns. cbv zeta.
@@ -577,9 +611,13 @@ Proof.
     with (before 58 line).
   change (in_str ch_colon line) with (in_str 58 line). change (in_str ch_dot (before 58 line)) with (in_str 46 (before 58 line)).
   rewrite Hc, Hd. cbn [andb negb].
-  change rx_double_dot_search with dd_lit.
   destruct ic.
-  - rewrite (Hdd eq_refl). cbn [andb]. reflexivity.
+  - specialize (Hdd eq_refl). unfold curves_plain in Hdd. apply negb_true_iff in Hdd.
+    rewrite andb_true_r.
+    change (find [ch_dot; ch_dot] line) with (find [46; 46] line).
+    change (rfind_char ch_colon line) with (rfind_char 58 line).
+    destruct (re_search rx_double_dot_search line); [|reflexivity].
+    cbn [andb] in Hdd. rewrite Hdd. reflexivity.
   - rewrite andb_false_r. reflexivity.
 Qed.
 
@@ -603,7 +641,16 @@ Lemma unit_word_plain u :
 Proof.
   intros Hu Hd W D HW. exists []. split.
   - intros n l _. reflexivity.
-  - intros p cs cont r Hov Hk. cbn [app] in Hk. apply unit_plain_run; assumption.
+  - intros p cs cont r Hov Hk. cbn [app] in Hk. apply unit_plain_run; try assumption. left. exact Hd.
+Qed.
+
+(* directly against the separating colon any white-space-free word is taken whole *)
+Lemma unit_splits_tight u D : no_space u = true -> unit_splits u [] D.
+Proof.
+  intros Hu. exists []. split.
+  - intros n l _. reflexivity.
+  - intros p cs cont r Hov Hk. cbn [app] in Hk.
+    apply (unit_plain_run u [] D); try assumption; [right; reflexivity|exact I].
 Qed.
 
 Lemma unit_word_num ds sp w :
@@ -710,7 +757,7 @@ Proof. intros -> (H0 & H1 & H2 & H3). cbv zeta beta. rewrite H0, H1, H2, H3. ref
 Lemma rhl_generic N U W D (ic ip : bool) :
   N <> [] -> in_str 46 N = false -> in_str 58 N = false -> unit_splits U W D ->
   forallb (cmatch CAny) W = true -> forallb (cmatch CAny) D = true ->
-  (ic = true -> contains [46; 46] (N ++ 46 :: U ++ W ++ 58 :: D) = false) ->
+  (ic = true -> curves_plain (N ++ 46 :: U ++ W ++ 58 :: D) = true) ->
   (if ip return Prop then param_ok N U W D else in_str 58 D = false) ->
   read_header_line (N ++ 46 :: U ++ W ++ 58 :: D) ic ip =
   Some (mkhl (strip N) (fix_unit U) (strip W) (strip D)).
@@ -728,7 +775,7 @@ Proof.
       apply (rhl_of_captures _ _ y); [|exact Hc]. cbn [first_match]. rewrite Hy. reflexivity.
   - rewrite in_str_app, in_str_cons, in_str_app, in_str_app, in_str_cons. cbn. rewrite !orb_true_r. reflexivity.
   - apply before_has_dot. exact HNc.
-  - intros Hic. apply no_dd_re_search. apply Hdd. exact Hic.
+  - exact Hdd.
 Qed.
 
 (* pieces for param_ok *)
